@@ -5,7 +5,7 @@ package main
 // C09 (links to C07/C06) — "the configured redirect target": the server's configuration loading
 // (server.parseRedirAddr, parseProxyBook, InitState, State.IsBypass) and the address goWeb really dials for an
 // unauthenticated peer (real dispatchConnection with a recording RedirDialer), compared with Model/ServerConfig.lean
-// (driver ops cfg.*).  The resolvers are external to the model: every op line carries an oracle table computed here
+// (driver ops scfg.*).  The resolvers are external to the model: every op line carries an oracle table computed here
 // with Go's own net.Resolve*Addr for the candidate hosts.
 //
 // Monitors (property text only): for a RedirAddr written in one of the documented forms (host, host:port, [v6]:port,
@@ -369,7 +369,7 @@ func c09target(c *ctx) {
 		default:
 			impl = fmt.Sprintf("ok host=%s port=%s", hx([]byte(host)), hx([]byte(port)))
 		}
-		o.T(fmt.Sprintf("cfg.redir s=%s res=%s", t9hxs(tc.s), res), impl)
+		o.T(fmt.Sprintf("scfg.redir s=%s res=%s", t9hxs(tc.s), res), impl)
 		if pan != nil {
 			o.V("C09 panic parseRedirAddr", map[string]any{"RedirAddr": tc.s, "panic": fmt.Sprint(pan)})
 			continue
@@ -412,7 +412,7 @@ func c09target(c *ctx) {
 		default:
 			impl = fmt.Sprintf("dials=%d", len(dials))
 		}
-		o.T(fmt.Sprintf("cfg.dial s=%s res=%s lport=%s", t9hxs(tc.s), res, t9hxs(lport)), impl)
+		o.T(fmt.Sprintf("scfg.dial s=%s res=%s lport=%s", t9hxs(tc.s), res, t9hxs(lport)), impl)
 		o.case_("redir|"+tc.s+"|"+local, true)
 		o.stat("redir_form_"+tc.form, 1)
 		o.stat("redir_"+strings.SplitN(impl, " ", 2)[0], 1)
@@ -511,7 +511,7 @@ func c09target(c *ctx) {
 				uid = c.r.bytes(c.r.intn(20))
 			}
 			got := sta.IsBypass(uid)
-			o.T(fmt.Sprintf("cfg.bypass tab=%s admin=%s uid=%s", tabStr, t9hxb(admin), t9hxb(uid)), map[bool]string{true: "1", false: "0"}[got])
+			o.T(fmt.Sprintf("scfg.bypass tab=%s admin=%s uid=%s", tabStr, t9hxb(admin), t9hxb(uid)), map[bool]string{true: "1", false: "0"}[got])
 			o.case_("bypass|"+tabStr+"|"+hx(admin)+"|"+hx(uid), true)
 			o.stat(fmt.Sprintf("bypass_%v", got), 1)
 			// monitor (C07's "a UID the server currently authorises", as far as the text goes): among well-formed 16-byte UIDs,
@@ -557,7 +557,7 @@ func c09target(c *ctx) {
 		default:
 			impl = "ok " + c09tShowBook(book)
 		}
-		o.T(fmt.Sprintf("cfg.book ents=%s res=%s", c09tEntsString(es), c09tBookOracle(es)), impl)
+		o.T(fmt.Sprintf("scfg.book ents=%s res=%s", c09tEntsString(es), c09tBookOracle(es)), impl)
 		o.case_("book|"+c09tEntsString(es), len(es) > 0)
 		o.stat("book_"+strings.SplitN(impl, " ", 2)[0], 1)
 		if pan != nil {
@@ -620,7 +620,7 @@ func c09target(c *ctx) {
 		if len(tabS) == 0 {
 			byp = "-"
 		}
-		op := fmt.Sprintf("cfg.init cnc=%d admin=%s dbempty=%d dbopens=%d ka=%d key=%s redir=%s res=%s ents=%s bres=%s byp=%s",
+		op := fmt.Sprintf("scfg.init cnc=%d admin=%s dbempty=%d dbopens=%d ka=%d key=%s redir=%s res=%s ents=%s bres=%s byp=%s",
 			map[bool]int{true: 1, false: 0}[raw.CncMode], t9hxb(raw.AdminUID), map[bool]int{true: 1, false: 0}[raw.DatabasePath == ""],
 			map[bool]int{true: 1, false: 0}[dbOpens], raw.KeepAlive, t9hxb(raw.PrivateKey), t9hxs(raw.RedirAddr), redirOracle(raw.RedirAddr),
 			c09tEntsString(es), c09tBookOracle(es), byp)
